@@ -21,7 +21,11 @@ Max2(a, b) == IF a > b THEN a ELSE b
 AllFixed(st) == \A i \in DOMAIN st.fixed : st.fixed[i]
 FirstUnfixedFrom(st, from) == LET ks == {i \in DOMAIN st.fixed : i >= from /\ ~st.fixed[i]} IN
                               IF ks = {} THEN 0 ELSE CHOOSE i \in ks : \A j \in ks : i <= j
-\* the estimates the implementation computes for statement i
+\* the constant written with the label (label+c,PCR / label-c,PCR: c signed; 0 = a plain label; items without the field are plain)
+CO(prog, i) == IF "c" \in DOMAIN prog[i] THEN prog[i].c ELSE 0
+\* the estimates the implementation computes for statement i.  For label+-c the displacement is the span to the label shifted by c: [lowest, highest] bounds it
+\* (forward spans are over-estimated by the statement's own bytes, which the lower bound takes off again); inside -128..127 -> 8 bits (reported as 0 / 0), wholly
+\* outside -> 16 bits at once (reported like a forced decision), otherwise undecided (0 / 65535) until the sweep that forces it
 Est(prog, st, i, forced) ==
   LET t == prog[i].tgt
       fwd == ~(t < i)
@@ -29,9 +33,17 @@ Est(prog, st, i, forced) ==
       hi == IF fwd THEN t - 1 ELSE i - 1
       own == IF fwd THEN 2 ELSE st.size[i] + 1
       up == [x \in DOMAIN st.size |-> Max2(st.maxsz[x], st.size[x])]
+      mn0 == SumR(st.size, lo, hi) + own
+      mx0 == SumR(up, lo, hi) + own
+      c == CO(prog, i)
+      lowest == IF t = i THEN c - st.size[i] - 1 ELSE IF fwd THEN mn0 - 2 - st.size[i] + c ELSE c - mx0       \* (t = i: the statement's own label - the span is the statement itself)
+      highest == IF t = i THEN c - st.size[i] - 1 ELSE IF fwd THEN mx0 + c ELSE c - mn0
+      fits == -128 <= lowest /\ highest <= 127
+      never == highest < -128 \/ lowest > 127
   IN [fwd |-> fwd, lim |-> IF fwd THEN 127 ELSE 128,
-      mn |-> IF forced THEN 65535 ELSE SumR(st.size, lo, hi) + own,
-      mx |-> IF forced THEN 65535 ELSE SumR(up, lo, hi) + own]
+      f16 |-> forced \/ (c # 0 /\ ~fits /\ never),
+      mn |-> IF forced THEN 65535 ELSE IF c = 0 THEN mn0 ELSE IF fits THEN 0 ELSE IF never THEN 65535 ELSE 0,
+      mx |-> IF forced THEN 65535 ELSE IF c = 0 THEN mx0 ELSE IF fits THEN 0 ELSE 65535]
 \* one call of determine_pcr_relative_sizes on statement i
 Decide(prog, st, i, forced) ==
   LET e == Est(prog, st, i, forced) IN
@@ -61,7 +73,7 @@ Step(prog, st) ==
 Addr(st, i) == SumR(st.size, 1, i - 1)
 Disp(prog, st, i) == Addr(st, prog[i].tgt) - (Addr(st, i) + st.size[i])
 WidthSafeSt(prog, st) == st.phase = "done" =>
-   \A i \in DOMAIN prog : (prog[i].k = "pcr" /\ st.size[i] = prog[i].base + 1) => Disp(prog, st, i) \in -128..127
+   \A i \in DOMAIN prog : (prog[i].k = "pcr" /\ st.size[i] = prog[i].base + 1) => (Disp(prog, st, i) + CO(prog, i)) \in -128..127
 DecidedSt(prog, st) == st.phase = "done" => \A i \in DOMAIN prog : st.fixed[i] /\ (prog[i].k = "pcr" => st.size[i] \in {prog[i].base + 1, prog[i].base + 2})
 NoLivelockSt(prog, st) == st.sweeps <= Len(prog) + 1
 =============================================================================
